@@ -64,6 +64,8 @@ pub struct HullPos {
     pub visible: Vec<(u64, usize)>,
     /// q lies exactly on the hyperplane of some boundary facet
     pub on_some_hyperplane: bool,
+    /// the boundary facets whose hyperplane contains `q` exactly
+    pub coplanar: Vec<(u64, usize)>,
     /// every side test was outside the tolerance band
     pub decidable: bool,
 }
@@ -83,7 +85,7 @@ impl HullPos {
 pub fn hull_position(snap: &Snap, q: &[f64]) -> HullPos {
     let coords = snap.key_to_coords();
     let cells: std::collections::BTreeMap<u64, &crate::snap::SCell> = snap.cells.iter().map(|c| (c.key, c)).collect();
-    let mut pos = HullPos { visible: Vec::new(), on_some_hyperplane: false, decidable: true };
+    let mut pos = HullPos { visible: Vec::new(), on_some_hyperplane: false, coplanar: Vec::new(), decidable: true };
     for (facet, cell, opp_idx) in refval::boundary_facets(snap) {
         let Some(c) = cells.get(&cell) else { continue };
         let Some(opp) = c.verts.get(opp_idx).and_then(|k| coords.get(k)) else { continue };
@@ -97,6 +99,7 @@ pub fn hull_position(snap: &Snap, q: &[f64]) -> HullPos {
             pos.visible.push((cell, opp_idx));
         } else if s.sign == 0 {
             pos.on_some_hyperplane = true;
+            pos.coplanar.push((cell, opp_idx));
         }
     }
     pos.visible.sort_unstable();
